@@ -462,6 +462,8 @@ V("c02-n-sun-local-renamed", "C02", "pass", edits=[(OPF, "sun_eci_position", "su
 # ------------------------------------------------------------------------------------ whole-package neutral transformations
 for _i in range(1, 21):
     V(f"c{_i:02d}-n-all-locals-renamed-comparisons-mirrored", f"C{_i:02d}", "pass", transforms=["rename_locals", "flip_comparisons"], note="every function-local renamed, every call-free comparison mirrored, sources re-emitted by ast.unparse")
+    V(f"c{_i:02d}-n-single-use-locals-inlined", f"C{_i:02d}", "pass", transforms=["inline_single_use", "rename_locals", "flip_comparisons"], note="every single-use local inlined into the next statement, then renamed / mirrored")
+    V(f"c{_i:02d}-n-variables-extracted", f"C{_i:02d}", "pass", transforms=["extract_variables", "rename_locals"], note="every returned expression and every if-test bound to a new local first, then all locals renamed")
 
 OUF = "physics/orbits/utils.py"
 _ST_OK = "    if 1e-6 < abs(psi) < 1e-2:\n        c2 = (1 - psi / 12 * (1 - psi / 30 * (1 - psi / 56 * (1 - psi / 90)))) / 2\n        c3 = (1 - psi / 20 * (1 - psi / 42 * (1 - psi / 72 * (1 - psi / 110)))) / 6\n    elif psi > 1e-6:  # Elliptical"
